@@ -1184,3 +1184,173 @@ func (c *Ctx) memoStored(rule string, fi *FuncInfo, clause string) int {
 	})
 	return n
 }
+
+// LOCK-COVERS (go/cfg): a function that is handed a mutex by concurrent workers (a *sync.Mutex
+// parameter) writes shared accumulators under it. Shared = an element of a slice parameter whose
+// first index is not "the id of the branch this call is about" (`ref.Id()`, one worker per reference
+// branch), or the target of a pointer parameter. Forward must-analysis over the flow graph: at each
+// such write every path from the entry has passed `mux.Lock()` with no `mux.Unlock()` since.
+func (c *Ctx) lockCovers(rule string, fi *FuncInfo, clause string) int {
+	if fi == nil || fi.Decl.Body == nil {
+		return 0
+	}
+	info := fi.Pkg.TypesInfo
+	var mux types.Object
+	sliceParam := map[types.Object]bool{}
+	ptrParam := map[types.Object]bool{}
+	edgeParam := map[types.Object]bool{}
+	for _, f := range fi.Decl.Type.Params.List {
+		for _, nm := range f.Names {
+			o := info.Defs[nm]
+			if o == nil {
+				continue
+			}
+			switch t := o.Type().(type) {
+			case *types.Pointer:
+				if named, ok := t.Elem().(*types.Named); ok && named.Obj().Pkg() != nil && named.Obj().Pkg().Path() == "sync" && named.Obj().Name() == "Mutex" {
+					mux = o
+				} else if _, isBasic := t.Elem().Underlying().(*types.Basic); isBasic {
+					ptrParam[o] = true
+				} else if isEdgePtr(o.Type()) {
+					edgeParam[o] = true
+				}
+			case *types.Slice:
+				sliceParam[o] = true
+			}
+		}
+	}
+	if mux == nil {
+		c.Undecided(rule, fi.Name()+"/mutex", fi.Decl.Pos(), "no *sync.Mutex parameter")
+		return 0
+	}
+	isMux := func(m ast.Node, name string) bool {
+		es, ok := m.(*ast.ExprStmt)
+		if !ok {
+			return false
+		}
+		call, isCall := es.X.(*ast.CallExpr)
+		if !isCall {
+			return false
+		}
+		sel, isSel := call.Fun.(*ast.SelectorExpr)
+		return isSel && sel.Sel.Name == name && identObj(info, sel.X) == mux
+	}
+	// shared write target?
+	shared := func(lhs ast.Expr) (string, bool) {
+		e := unparen(lhs)
+		if st, ok := e.(*ast.StarExpr); ok {
+			if o := identObj(info, st.X); o != nil && ptrParam[o] {
+				return "*" + o.Name(), true
+			}
+			return "", false
+		}
+		// outermost-to-innermost index chain
+		var chain []*ast.IndexExpr
+		for {
+			ix, ok := e.(*ast.IndexExpr)
+			if !ok {
+				break
+			}
+			chain = append(chain, ix)
+			e = unparen(ix.X)
+		}
+		if len(chain) == 0 {
+			return "", false
+		}
+		base := identObj(info, e)
+		if base == nil || !sliceParam[base] {
+			return "", false
+		}
+		first := chain[len(chain)-1].Index
+		if call, ok := unparen(first).(*ast.CallExpr); ok {
+			if sel, isSel := call.Fun.(*ast.SelectorExpr); isSel && sel.Sel.Name == "Id" {
+				if o := identObj(info, sel.X); o != nil && edgeParam[o] {
+					return "", false // the slot of this call's own reference branch
+				}
+			}
+		}
+		return base.Name(), true
+	}
+	g := c.cfgOf(info, fi.Decl.Body)
+	const (
+		top = iota
+		locked
+		unlocked
+	)
+	in := map[*cfg.Block]int{}
+	if len(g.g.Blocks) == 0 {
+		return 0
+	}
+	in[g.g.Blocks[0]] = unlocked
+	type wr struct {
+		pos  token.Pos
+		name string
+		st   int
+	}
+	var writes map[token.Pos]*wr
+	for iter := 0; iter < 50; iter++ {
+		changed := false
+		writes = map[token.Pos]*wr{}
+		for _, b := range g.g.Blocks {
+			st := in[b]
+			if st == top {
+				continue
+			}
+			for _, m := range b.Nodes {
+				switch {
+				case isMux(m, "Lock"):
+					st = locked
+				case isMux(m, "Unlock"):
+					st = unlocked
+				}
+				var lhss []ast.Expr
+				switch x := m.(type) {
+				case *ast.AssignStmt:
+					lhss = x.Lhs
+				case *ast.IncDecStmt:
+					lhss = []ast.Expr{x.X}
+				}
+				for _, l := range lhss {
+					if nm, isSh := shared(l); isSh {
+						writes[l.Pos()] = &wr{l.Pos(), nm, st}
+					}
+				}
+			}
+			for _, s := range b.Succs {
+				ns := st
+				if in[s] == unlocked {
+					ns = unlocked
+				}
+				if in[s] != ns {
+					in[s] = ns
+					changed = true
+				}
+			}
+		}
+		if !changed {
+			break
+		}
+	}
+	var poss []token.Pos
+	for p := range writes {
+		poss = append(poss, p)
+	}
+	sortPos(poss)
+	n := 0
+	for _, p := range poss {
+		w := writes[p]
+		n++
+		key := fmt.Sprintf("%s/%s#%d", fi.Name(), w.name, n)
+		c.Check(w.st == locked, rule, key, w.pos, "written with the mutex held on every path",
+			fmt.Sprintf("`%s` is shared between the workers (it is not the slot of this call's own reference branch) and is written here on a path where `%s` is not held: concurrent `+=` lose updates, and the moved-taxa table then depends on the schedule", w.name, mux.Name())).Clause = clause
+	}
+	return n
+}
+
+func sortPos(p []token.Pos) {
+	for i := 1; i < len(p); i++ {
+		for j := i; j > 0 && p[j] < p[j-1]; j-- {
+			p[j], p[j-1] = p[j-1], p[j]
+		}
+	}
+}
